@@ -9,6 +9,7 @@
 //	             Admin.Execute, the RPC Pipes API and pipe.Service — IMPL vs MODEL (registry) vs SPEC (a Go map)
 //	paging       SHOW PIPES OFFSET/LIMIT walks — pages concatenate to the listing, each pipe once
 //	race         concurrent CreatePipe of one name: parked between the two locked sections (hook) and free-running
+//	codec        the concrete text of pipes.dat: the JSON model vs encoding/json and vs the file a real server writes (codec.go)
 package main
 
 import (
@@ -948,6 +949,9 @@ func replay(path string) {
 		res.Fatal(args.Out, "replay: %v", err)
 	}
 	switch rp.Section {
+	case "codec":
+		// the section is deterministic for a seed: re-run it (the recorded input names the failing string / registry)
+		sectionCodec(vh.NewRng(args.Seed).Fork("codec"))
 	case "listing":
 		var c listingCase
 		json.Unmarshal(rp.Input, &c)
@@ -1284,5 +1288,6 @@ func main() {
 	sectionEnsureRace(rng.Fork("ensure-race"))
 	sectionRestart(rng.Fork("restart"))
 	sectionSaveRace(rng.Fork("saverace"))
+	sectionCodec(rng.Fork("codec"))
 	res.Write(args.Out)
 }
